@@ -266,7 +266,7 @@ func wnFixedPolicies() [][]spec.Op {
 
 // small exhaustive trees -------------------------------------------------------
 
-var smallAlphabet = []string{"b", "x", "a", "img", "br", "object", "my-x", "#text", "frame"}
+var smallAlphabet = []string{"b", "x", "a", "a+href", "img", "br", "object", "my-x", "#text", "frame"}
 
 // enumerate all ordered forests with exactly n nodes over smallAlphabet (void
 // and text labels are leaves); calls f for each.
@@ -294,6 +294,9 @@ func enumForests(n int, f func([]*wnNode)) {
 						if lab == "#text" {
 							nd = &wnNode{}
 						}
+						if lab == "a+href" { // a kept <a>, next to the bare-dropped one
+							nd = &wnNode{name: "a", attrs: [][2]string{{"href", "http://example.org/"}}, kids: kids}
+						}
 						out = append(out, append([]*wnNode{nd}, sib...))
 					}
 				}
@@ -316,7 +319,7 @@ func cloneWithMarkers(ns []*wnNode, mk *int) []*wnNode {
 			out = append(out, &wnNode{text: fmt.Sprintf("zqmk%06d", *mk)})
 			continue
 		}
-		out = append(out, &wnNode{name: n.name, kids: cloneWithMarkers(n.kids, mk)})
+		out = append(out, &wnNode{name: n.name, attrs: n.attrs, kids: cloneWithMarkers(n.kids, mk)})
 	}
 	return out
 }
@@ -376,7 +379,7 @@ func wnWorkload(ctx *core.Ctx, judge func(cs *core.Case, env *Env, d *wnDoc, out
 }
 
 func runC08(ctx *core.Ctx) {
-	ctx.Rule = "well-nested documents (random forests over kept / dropped / bare-dropped / void / skip-content / pattern-matched / raw-text elements, depth <= 5, unique marker word in every text node) under fixed and random policies incl. modified skip sets and element patterns, plus ALL forests of <= N nodes over a 9-label alphabet for 4 fixed policies (exhaustive); oracle: markers planted inside a disallowed skip-content element are absent from the output, markers outside are present; non-trivial = document has at least one marker, distinct by (policy, document)"
+	ctx.Rule = "well-nested documents (random forests over kept / dropped / bare-dropped / void / skip-content / pattern-matched / raw-text elements, depth <= 5, unique marker word in every text node) under fixed and random policies incl. modified skip sets and element patterns, plus ALL forests of <= N nodes over a 10-label alphabet for 4 fixed policies (exhaustive); oracle: markers planted inside a disallowed skip-content element are absent from the output, markers outside are present; non-trivial = document has at least one marker, distinct by (policy, document)"
 	ctx.Assume("script/style bodies are C05's and are not generated here", "an element the policy allows is never a skipped region, even when it is dropped for lack of attributes", "void elements have no content, so they never open a skipped region")
 	wnWorkload(ctx, c08Judge, "doc")
 	ctx.MinNontrivial(int64(ctx.N(20000, 500000)))
@@ -389,7 +392,7 @@ func runC08(ctx *core.Ctx) {
 }
 
 func runC09(ctx *core.Ctx) {
-	ctx.Rule = "same well-nested generator as C08 (random forests + all forests of <= N nodes over a 9-label alphabet incl. same-name nesting of kept and bare-dropped elements, void elements inside dropped parents, drops inside skipped regions, pattern-matched bare elements); oracle: the stack-balance checker accepts the re-tokenised output whenever it accepts the input; non-trivial = balanced input with at least one marker, distinct by (policy, document)"
+	ctx.Rule = "same well-nested generator as C08 (random forests + all forests of <= N nodes over a 10-label alphabet incl. same-name nesting of kept and bare-dropped elements, void elements inside dropped parents, drops inside skipped regions, pattern-matched bare elements); oracle: the stack-balance checker accepts the re-tokenised output whenever it accepts the input; non-trivial = balanced input with at least one marker, distinct by (policy, document)"
 	ctx.Assume("void elements: the HTML void elements plus the obsolete ones the HTML parser treats as void (basefont bgsound frame keygen)", "self-closing syntax on a non-void element is neutral for the checker on both sides")
 	wnWorkload(ctx, c09Judge, "doc")
 	ctx.MinNontrivial(int64(ctx.N(20000, 500000)))
